@@ -24,7 +24,7 @@ import (
 )
 
 func init() {
-	register(&Prop{ID: "C10", Gen: genC10, Run: runC10, Timeout: 300 * time.Second})
+	register(&Prop{ID: "C10", Gen: genC10, Run: runC10, Timeout: 60 * time.Second})
 }
 
 var (
@@ -216,7 +216,7 @@ func runC10(op string) string {
 				receiver.conn.in.waitReaderIdle()
 				select {
 				case <-done:
-				case <-time.After(90 * time.Second):
+				case <-time.After(30 * time.Second):
 					close(stall)
 				}
 			}()
